@@ -703,6 +703,10 @@ type BooleanUnfold struct {
 //	```
 func UnfoldBooleanAction(unfoldOpts BooleanUnfold) RewriteAction {
 	return func(_ ast.Schemas, _ ast.Builder, option ast.Option) []ast.Option {
+		if len(option.Assignments) == 0 || len(option.Assignments[0].Path) == 0 {
+			return []ast.Option{option}
+		}
+
 		intoType := option.Assignments[0].Path.Last().Type
 
 		if !intoType.IsScalar() || intoType.Scalar.ScalarKind != ast.KindBool {
@@ -729,7 +733,7 @@ func UnfoldBooleanAction(unfoldOpts BooleanUnfold) RewriteAction {
 			},
 		}
 
-		if option.Default != nil {
+		if option.Default != nil && len(option.Default.ArgsValues) != 0 {
 			if val, ok := option.Default.ArgsValues[0].(bool); ok && val {
 				newOpts[0].Default = &ast.OptionDefault{}
 			} else {
